@@ -104,6 +104,18 @@ def _check_timestamps(fields, values):
     return None
 
 
+def c15_ts_unset(which=()):
+    from flow.record import RecordDescriptor
+    from flow.record.base import iter_timestamped_records
+
+    vals = {"a": datetime.datetime(2001, 1, 1, tzinfo=UTC), "b": datetime.datetime(2002, 2, 2, tzinfo=UTC)}
+    setv = {k: vals[k] for k in which}
+    rec = RecordDescriptor("c15/ts", [("datetime", "a"), ("string", "s"), ("datetime", "b")])(s="kept", **setv)
+    got = [(o.ts, o.ts_description, o.s, o.a, o.b) for o in iter_timestamped_records(rec)]
+    want = [(setv.get("a"), "a", "kept", setv.get("a"), setv.get("b")), (setv.get("b"), "b", "kept", setv.get("a"), setv.get("b"))]
+    return {"violates": got != want, "detail": None if got == want else f"expansion of a record with unset timestamp fields: {got}, expected one record per timestamp field"}
+
+
 def c15_ts_collision(ftype="string", fname="ts"):
     from flow.record import RecordDescriptor
     from flow.record.base import iter_timestamped_records
@@ -308,4 +320,4 @@ def c15_sweep(seed=0, n=300):
     return {"violates": False, "cases": cases}
 
 
-CALLS = {"c15_rewrite_history": c15_rewrite_history, "c15_extend": c15_extend, "c15_timestamps": c15_timestamps, "c15_grouped_replace": c15_grouped_replace, "c15_grouped_collision": c15_grouped_collision, "c15_ts_collision": c15_ts_collision, "c15_grouped": c15_grouped, "c15_rewrite": c15_rewrite, "c15_sweep": c15_sweep}
+CALLS = {"c15_rewrite_history": c15_rewrite_history, "c15_extend": c15_extend, "c15_timestamps": c15_timestamps, "c15_grouped_replace": c15_grouped_replace, "c15_grouped_collision": c15_grouped_collision, "c15_ts_collision": c15_ts_collision, "c15_ts_unset": c15_ts_unset, "c15_grouped": c15_grouped, "c15_rewrite": c15_rewrite, "c15_sweep": c15_sweep}
